@@ -71,8 +71,22 @@ fn krylov(t: &mut Toks, cx: &mut Ctx, c09: bool) -> String {
         }
     }
     // ---- C09 oracle: well-posed classes ----
+    let near = class.starts_with("near-");
+    let class = class.trim_start_matches("near-").to_string();
     let wellposed = (class == "spd" && true) || (class == "dd" && solver != "cg") || (class == "spd" && solver != "cg");
     let degenerate = class.starts_with("exact-") || class.starts_with("zero-");
+    if near && c09 && n > 0 {
+        // a guess whose true relative residual is a thousand times below the tolerance already solves
+        // the system: it is accepted as it stands (no iteration) and left alone
+        let ax0 = mulv(&x0); let r0: Vec<f64> = (0..n).map(|i| b[i] - ax0[i]).collect();
+        let bn = nrm(&b.vec);
+        if bn > 0.0 && nrm(&r0) / bn <= 1e-3 * tol {
+            cx.meta("near_exact_guess", 1);
+            cx.check(matches!(&r, Ok(Ok(0))), &format!("an initial guess that already solves the system (relative residual {:e}, tol {:e}) was not accepted as solved: {:?}", nrm(&r0) / bn, tol, r.as_ref().map_err(|c| *c)));
+            cx.check(same_vec(&x.vec, &x0.vec), "an initial guess that already solves the system was modified");
+        }
+    }
+    let class = class.trim_start_matches("near-").to_string();
     if degenerate && c09 {
         // exact initial guess / zero rhs with zero guess: accepted as solved, x stays finite
         cx.check(matches!(&r, Ok(Ok(_))), "degenerate start (already solved) was not accepted as solved");
@@ -94,7 +108,9 @@ fn krylov(t: &mut Toks, cx: &mut Ctx, c09: bool) -> String {
                     let drift = 1e4 * f64::EPSILON * ((*it + 1) as f64) * (n as f64).sqrt();
                     // (with a zero right-hand side the residual is measured absolutely: |x| <= |A^-1| * tol)
                     let zero_rhs_slack = if nrm(&b.vec) == 0.0 { (10.0 * tol + drift) * inv.norm_inf() * (n as f64).sqrt() } else { 0.0 };
-                    cx.check(nrm(&diff) <= (10.0 * tol + drift) * kappa * nrm(&xd.vec) + zero_rhs_slack + 1e-300, &format!("answer differs from the direct dense solution by more than tol * condition number (|x - x_direct| = {:e}, bound {:e}, kappa {:e})", nrm(&diff), (10.0 * tol + drift) * kappa * nrm(&xd.vec), kappa));
+                    // (the recurrence residual drifts from the true one in proportion to the largest iterate, here at least the guess)
+                    let guess_slack = drift * kappa * nrm(&x0.vec);
+                    cx.check(nrm(&diff) <= (10.0 * tol + drift) * kappa * nrm(&xd.vec) + zero_rhs_slack + guess_slack + 1e-300, &format!("answer differs from the direct dense solution by more than tol * condition number (|x - x_direct| = {:e}, bound {:e}, kappa {:e})", nrm(&diff), (10.0 * tol + drift) * kappa * nrm(&xd.vec), kappa));
                 } }
             }
             Ok(Err(_)) => {
@@ -184,7 +200,14 @@ fn one(rng: &mut Rng, op: &str, solver: &str, class: &str, n: usize, guess: usiz
     let (x0, cls): (Vec<f64>, String) = match guess {
         0 => (vec![0.0; n], if rhs_scale == 0.0 { format!("zero-{}", class) } else { class.to_string() }),
         1 => ((0..n).map(|_| rng.range(-8, 8) as f64 / 2.0 * rhs_scale).collect(), class.to_string()),   // random guess of the scale of the solution
-        _ => (xs.iter().map(|z| z * rhs_scale).collect(), if rhs_scale == 1.0 { format!("exact-{}", class) } else { class.to_string() }),   // exact solution (data are dyadic: A x0 = b exactly)
+        2 => (xs.iter().map(|z| z * rhs_scale).collect(), if rhs_scale == 1.0 { format!("exact-{}", class) } else { class.to_string() }),   // exact solution (data are dyadic: A x0 = b exactly)
+        3 | 5 => { let far = if guess == 3 { 1048576.0 } else { 1024.0 };      // a guess far from the solution: |b - A x0| >> |b|
+               ((0..n).map(|_| (rng.range(-8, 8) as f64 + 0.5) * far * if rhs_scale == 0.0 { 1.0 } else { rhs_scale }).collect(), class.to_string()) }
+        _ => { // a guess that solves the system up to rounding: the exact solution with last-bit perturbations
+               let mut x0: Vec<f64> = xs.iter().map(|z| z * rhs_scale).collect();
+               for z in x0.iter_mut() { if rng.chance(50) { *z *= 1.0 + f64::EPSILON * (1 + rng.below(3)) as f64; } }
+               if n > 0 { let k = rng.below(n); x0[k] = if x0[k] == 0.0 { 1e-17 * rhs_scale } else { x0[k] * (1.0 - f64::EPSILON) }; }
+               (x0, if rhs_scale != 0.0 { format!("near-{}", class) } else { class.to_string() }) }
     };
     format!("{} {} {} {} {} {} {} {} {} {} {}", op, solver, cls, n, n, trips_of(rng, &a), vstr(&b), vstr(&x0), budget, tol.wr(), itol)
 }
@@ -200,7 +223,7 @@ pub fn gen(rng: &mut Rng, tier: Tier, out: &mut Vec<String>) {
         for (k, solver) in SOLVERS.iter().enumerate() {
             let budget = *rng.pick(&[0usize, 1, 2, n, 1000, 1000]);
             let tol = *rng.pick(&[1e-12, 1e-10, 1e-8, 1e-6, 1e-4, 1e-2]);
-            let guess = rng.below(3);
+            let guess = rng.below(5);
             let scale = if rng.chance(8) { 0.0 } else { 1.0 };
             out.push(one(rng, "krylov", solver, class, n, guess, budget, tol, scale, 1));
             if k == 1 { out.push(one(rng, "krylov", "bicg", class, n, guess, budget, tol, scale, 2)); }
@@ -222,8 +245,9 @@ pub fn gen_c09(rng: &mut Rng, tier: Tier, out: &mut Vec<String>) {
             let class = if solver == "cg" || rng.chance(30) { "spd" } else { "dd" };
             let tol = *rng.pick(&[1e-12, 1e-10, 1e-8, 1e-6, 1e-3]);
             let scale = *rng.pick(&[1.0, 1.0, 1.0 / 1048576.0, 1048576.0]);
-            let guess = rng.below(2);
+            let guess = *rng.pick(&[0usize, 1, 1, 5]);
             out.push(one(rng, "krylov9", solver, class, n, guess, 1000, tol, scale, 1 + (i % 2)));
+            if i % 3 == 2 { out.push(one(rng, "krylov9", solver, class, n, 4, 1000, tol.max(1e-10), scale, 1 + (i % 2))); }
             // degenerate starts
             if i % 3 == 0 { out.push(one(rng, "krylov9", solver, class, n, 2, 1000, tol, 1.0, 1 + (i % 2))); }
             if i % 3 == 1 { out.push(one(rng, "krylov9", solver, class, n, 0, 1000, tol, 0.0, 1 + (i % 2))); }
